@@ -11,7 +11,7 @@ use neurons::tensor::Tensor;
 
 pub fn meta(_ctx: &Ctx) -> Meta {
     Meta {
-        rule: "data-set sizes M in {1,2,3,63,64,65,127,128,129,130,200} (below, at, above the internal chunk size 64, not multiples of it) x heads {soft-max(3), linear(1), linear(3), sigmoid(2)} x bodies {dense, conv+dense, conv+pool+dense} x 7 objectives x tolerances {1e-6,0.1,0.5,10}; inputs pairwise distinct; targets placed clearly inside / outside the tolerance per component, arg-max unique. Oracles: predict_batch(xs)[i] bit-equal predict(xs[i]) in input order, length M; predict = last activation of forward; validate loss = mean of objective.loss(predict(x),t); accuracy by the three documented rules. A state is one (M, head, body, objective, tolerance) configuration; transitions = predictions made; non-trivial = M >= 2".into(),
+        rule: "data-set sizes M in {1,2,3,63,64,65,127,128,129,130,200} (below, at, above the internal chunk size 64, not multiples of it) x heads {soft-max(3), linear(1), linear(3), sigmoid(2)} x bodies {dense, conv+dense, conv+pool+dense, dense with a multiplicative skip connection, dense with a loop connection} x 7 objectives x tolerances {1e-6,0.1,0.5,10}; inputs pairwise distinct; targets placed clearly inside / outside the tolerance per component, arg-max unique. Oracles: predict_batch(xs)[i] bit-equal predict(xs[i]) in input order, length M; predict = last activation of forward; validate loss = mean of objective.loss(predict(x),t); accuracy by the three documented rules. A state is one (M, head, body, objective, tolerance) configuration; transitions = predictions made; non-trivial = M >= 2".into(),
         bound: "M <= 200; complete product".into(),
         exhaustive: true,
         assumptions: vec!["the mean is compared with tolerance (M+2)*eps*mean|term| (any summation order)".into()],
@@ -34,6 +34,24 @@ fn net_for(head: &str, body: &str) -> Net {
             Dims::Chw(1, 3, 4),
             vec![L::Conv { f: 2, k: (2, 2), s: (1, 1), p: (0, 0), d: (1, 1), act: Act::Relu, drop: None }, head_layer],
         ),
+        "skip" => {
+            let mut n = Net::new(
+                Dims::Flat(4),
+                vec![L::Dense { n: 4, act: Act::Tanh, bias: true, drop: None }, L::Dense { n: 4, act: Act::Tanh, bias: true, drop: None }, head_layer],
+            );
+            n.connects = vec![(0, 1)];
+            n.skipacc = Acc::Mul;
+            n
+        }
+        "loop" => {
+            let mut n = Net::new(
+                Dims::Flat(4),
+                vec![L::Dense { n: 4, act: Act::Tanh, bias: true, drop: None }, L::Dense { n: 4, act: Act::Tanh, bias: true, drop: None }, head_layer],
+            );
+            n.loopbacks = vec![(1, 0, 2, true)];
+            n.loopacc = Acc::Mean;
+            n
+        }
         _ => Net::new(
             Dims::Chw(1, 4, 4),
             vec![
@@ -188,7 +206,7 @@ pub fn cases() -> Vec<Kv> {
     let mut out = Vec::new();
     for m in SIZES {
         for head in ["softmax3", "linear1", "linear3", "sigmoid2"] {
-            for body in ["dense", "conv", "convpool"] {
+            for body in ["dense", "conv", "convpool", "skip", "loop"] {
                 for o in OBJ7 {
                     for tol in TOLS {
                         out.push(Kv::new().put("m", m).put("head", head).put("body", body).put("obj", o.name()).put("tol", tol));
